@@ -8,6 +8,8 @@ use falcon::il::*;
 use falcon::Error;
 use std::cmp::Ordering;
 use std::collections::{BTreeMap, BTreeSet};
+use std::cell::RefCell;
+use std::rc::Rc;
 use std::panic::{catch_unwind, AssertUnwindSafe};
 
 #[derive(Clone, Debug, PartialEq, Eq, PartialOrd, Ord)]
@@ -79,6 +81,46 @@ impl<'f> FixedPointAnalysis<'f, Dist> for DistAnalysis {
         Ok(match state { None => Dist(0), Some(Dist(d)) => Dist((d + 1).min(5)) })
     }
     fn join(&self, a: Dist, b: &Dist) -> Result<Dist, Error> { Ok(Dist(a.0.max(b.0))) }
+}
+
+// ---- analysis 3: NOT monotone. States are sets of small integers under inclusion, join = union; a location selected
+// by `variant` replaces its input by { |input| % modulus }. The engine must answer such an analysis with an error as
+// soon as a recomputed state is not above the stored one; every transfer output is logged to check exactly that.
+struct CardAnalysis { variant: usize, log: Rc<RefCell<Vec<(Loc, Seen)>>> }
+fn card_trans(variant: usize, l: &Loc, s: Option<Seen>) -> Seen {
+    let s = match s { None => return Seen([0usize].into_iter().collect()), Some(s) => s };
+    let hit = match variant % 3 { 0 => matches!(l, Loc::I(..)), 1 => true, _ => block_of(l) % 2 == 1 };
+    let modulus = if variant / 3 == 0 { 4 } else { 2 };
+    if hit { Seen([s.0.len() % modulus].into_iter().collect()) } else { s }
+}
+impl<'f> FixedPointAnalysis<'f, Seen> for CardAnalysis {
+    fn trans(&self, location: RefProgramLocation<'f>, state: Option<Seen>) -> Result<Seen, Error> {
+        let l = loc_of(location.function_location());
+        let out = card_trans(self.variant, &l, state);
+        self.log.borrow_mut().push((l, out.clone()));
+        Ok(out)
+    }
+    fn join(&self, mut a: Seen, b: &Seen) -> Result<Seen, Error> { a.0.extend(b.0.iter().cloned()); Ok(a) }
+}
+/// first (location, previous, next) in the log where a recomputed state is not above the previous one at that location
+fn non_ascending(log: &[(Loc, Seen)]) -> Option<(Loc, Seen, Seen)> {
+    let mut last: BTreeMap<Loc, Seen> = BTreeMap::new();
+    for (l, s) in log {
+        if let Some(p) = last.get(l) { if !p.0.is_subset(&s.0) { return Some((l.clone(), p.clone(), s.clone())); } }
+        last.insert(l.clone(), s.clone());
+    }
+    None
+}
+/// is `st` a solution of the data-flow equations on the closure of `start`?
+fn is_solution(m: &Model, start: &Loc, fwd: bool, variant: usize, st: &BTreeMap<Loc, Seen>) -> bool {
+    let prev = |l: &Loc| if fwd { m.pred(l) } else { m.succ(l) };
+    st.iter().all(|(l, v)| {
+        let ps: Vec<&Seen> = prev(l).iter().filter_map(|p| st.get(p)).collect();
+        if ps.is_empty() && l != start { return false; }
+        let mut it = ps.into_iter();
+        let inp = it.next().cloned().map(|first| it.fold(first, |mut a, b| { a.0.extend(b.0.iter().cloned()); a }));
+        &card_trans(variant, l, inp) == v
+    })
 }
 
 /// least solution on the closure of `start` (forward: preds = model.pred, succs = model.succ; backward: swapped)
@@ -165,6 +207,31 @@ fn main() {
                     }
                 }
             }
+            // non-monotone analyses: Ok only if no recomputed state was ever non-ascending (and then it is a solution);
+            // an ordering error only if one was
+            for variant in 0..6usize { for fwd in [true, false] {
+                evals += 1;
+                let log = Rc::new(RefCell::new(vec![]));
+                let a = CardAnalysis { variant, log: log.clone() };
+                let start = if fwd { model.start(0) } else { model.end(exit) };
+                let res: Result<Result<BTreeMap<Loc, Seen>, Error>, ()> = if fwd {
+                    catch_unwind(AssertUnwindSafe(|| fixed_point_forward(a, &function).map(|r| r.iter().map(|(k, v)| (loc_of_owned(k), v.clone())).collect()))).map_err(|_| ())
+                } else {
+                    catch_unwind(AssertUnwindSafe(|| fixed_point_backward(a, &function).map(|r| r.iter().map(|(k, v)| (loc_of(k.function_location()), v.clone())).collect()))).map_err(|_| ())
+                };
+                let bad = non_ascending(&log.borrow());
+                let what = format!("non-monotone Card analysis variant {} {}, {}", variant, if fwd { "forward" } else { "backward" }, desc);
+                match res {
+                    Ok(Ok(got)) => {
+                        if let Some(b) = &bad { report!("non_monotone", model, what, format!("Ok({:?})", got), format!("an error: the state recomputed at {:?} went from {:?} to {:?}, which is not above it", b.0, b.1, b.2)); }
+                        else if !is_solution(&model, &start, fwd, variant, &got) { report!("non_monotone", model, what, got, "a solution of the data-flow equations"); }
+                    }
+                    Ok(Err(Error::FixedPointOrdering(..))) => if bad.is_none() { report!("non_monotone", model, what, "FixedPointOrdering error", "Ok: every recomputed state was above the previous one"); },
+                    Ok(Err(Error::FixedPointMaxSteps)) => {}
+                    Ok(Err(e)) => report!("non_monotone", model, what, e.to_string(), "Ok or an ordering error"),
+                    Err(()) => report!("non_monotone", model, what, "panic", "Ok or an ordering error"),
+                }
+            } }
         } } }
     }
     let po: Vec<String> = per_op.iter().map(|(k, v)| format!("\"{}\":{}", k, v)).collect();
